@@ -196,6 +196,9 @@ def step (s : Eng) (line : String) : Eng × String :=
     (match removeWAL s with | .ok s' => (s', "ok") | .error (s', r) => (s', showRes r))
   | ["drop"] => if !(s.opened && s.hasDB) then (s, "bad-op") else run s (drop s)
   | ["ckpt"] => if !(s.opened && s.hasDB) then (s, "bad-op") else run s (checkpoint s)
+  | ["stray", _] => if !(s.opened && s.hasDB) then (s, "bad-op") else (s, "ok")
+  | ["age"] => if !(s.opened && s.hasDB) then (s, "bad-op") else ({ s with ltx := s.ltx.map fun f => { f with old := true } }, "ok")
+  | ["retain"] => if !(s.opened && s.hasDB) then (s, "bad-op") else (enforceRetention s, "ok")
   | ["state"] => (s, showState s)
   | ["ltx"] => (s, showListing s)
   | ["raw"] => (s, showRaw s)
